@@ -172,7 +172,22 @@ func (changes *Changes) GetDSC() (*DSC, error) {
 // This function will always move .changes last, making it suitable to
 // be used to move something into an incoming directory with an inotify
 // hook. This will also mutate Changes.Filename to match the new location.
+// checkFiles refuses listed names that are not plain file names, so that
+// Copy, Move and Remove never touch anything outside the control file's own
+// directory (and the destination).
+func (changes *Changes) checkFiles() error {
+	for _, file := range changes.Files {
+		if err := checkListedFilename(file.Filename); err != nil {
+			return err
+		}
+	}
+	return nil
+}
+
 func (changes *Changes) Copy(dest string) error {
+	if err := changes.checkFiles(); err != nil {
+		return err
+	}
 	if file, err := os.Stat(dest); err == nil && !file.IsDir() {
 		return fmt.Errorf("Attempting to move .changes to a non-directory")
 	}
@@ -199,6 +214,9 @@ func (changes *Changes) Copy(dest string) error {
 // be used to move something into an incoming directory with an inotify
 // hook. This will also mutate Changes.Filename to match the new location.
 func (changes *Changes) Move(dest string) error {
+	if err := changes.checkFiles(); err != nil {
+		return err
+	}
 	if file, err := os.Stat(dest); err == nil && !file.IsDir() {
 		return fmt.Errorf("Attempting to move .changes to a non-directory")
 	}
@@ -221,6 +239,9 @@ func (changes *Changes) Move(dest string) error {
 // always remove the .changes last, in the event there are filesystem i/o errors
 // on removing associated files.
 func (changes *Changes) Remove() error {
+	if err := changes.checkFiles(); err != nil {
+		return err
+	}
 	for _, file := range changes.AbsFiles() {
 		err := os.Remove(file.Filename)
 		if err != nil {
